@@ -21,7 +21,7 @@ MAX_EXAMPLES = {"quick": 12, "thorough": 30}
 
 RULE = ("Case = (program with tunable parameters built in layers by pbt/gen/c24_lfi.py: base predicates of arity 0/1 "
         "over <= 2 constants whose ground instances are fixed probabilistic / tunable (t(_) or t(0.1..0.9)) / "
-        "deterministic facts; 1-3 of {tunable fact, tunable AD without body (2-3 heads, possibly one fixed head), "
+        "deterministic facts; 1-3 of {tunable fact, tunable AD without body (2-4 heads, 0-2 of them with a fixed probability), "
         "tunable rule, tunable AD with body, propositional or with one variable}; 0-2 deterministic rules on top; "
         "hidden true value in 0.1..0.9 for every tunable parameter, AD values summing to <= 1 (exactly 1 when "
         "normalize=True, LFI's model of a tunable AD), n = 3..12 (quick) / 3..30 (thorough) interpretations sampled "
@@ -37,8 +37,9 @@ RULE = ("Case = (program with tunable parameters built in layers by pbt/gen/c24_
         "'ll-decrease:first-step' when i = 0, 'll-decrease' otherwise); after every step every "
         "weight is in [0,1] (1e-9) and the tunable weights of one AD sum to <= 1 + 1e-9; 'mle': after the first step "
         "weight = (#instances with the head true) / (#instances with the body true) counted in the dataset, whenever "
-        "the denominator is > 0 (for an AD with >= 2 tunable heads under normalize=True only when the AD has no "
-        "fixed head, where the normalised and the plain relative frequency coincide).  Non-trivial: >= 2 tunable "
+        "the denominator is > 0 (for an AD with >= 2 tunable heads and fixed heads under normalize=True: (1 - sum of "
+        "the fixed probabilities) * #head true / #any tunable head of the AD true); under normalize=True the "
+        "probabilities of an AD with >= 2 tunable heads, fixed heads included, sum to <= 1 + 1e-9 after every step.  Non-trivial: >= 2 tunable "
         "parameters, >= 5 examples and (em) >= 1 partially observed example.  Distinct = distinct case.")
 ASSUMPTIONS = ["reference enumerator (pbt/ref/semantics.py) defines the distribution the datasets are drawn from",
                "log-likelihood values are taken as reported by step(); they are not recomputed",
@@ -239,7 +240,16 @@ def make_check(mode):
             for si, idx in groups.items():
                 if prog[si][0] == "ad" and len(idx) < len(prog[si][1]):
                     fixed = sum(float(p) for p, _ in prog[si][1] if not g.is_tunable(p))
-                    if fixed + sum(flat[i] for i in idx) > 1 + 1e-9:
+                    tot = fixed + sum(flat[i] for i in idx)
+                    if tot > 1 + 1e-9:
+                        if normalize and len(idx) >= 2 and it >= 1:
+                            # the tunable heads are renormalised to the mass the fixed heads leave: the AD is valid
+                            return done(Failure("ad-total-exceeds-1", "%s: after step %d the probabilities of the AD "
+                                                "with tunable heads %s and fixed heads summing to %r sum to %r\n%s\n"
+                                                "weights %s\nexamples %s" % (
+                                                    tag, it, [names[i] for i in idx], fixed, tot, src, flat, examples),
+                                                sig="%s|ad-total-exceeds-1" % tag))
+                        # without renormalisation (normalize off or a single tunable head) this is finding F-C24-3
                         feats.add("note:AD total with its fixed heads exceeds 1 after some step")
                 if len(idx) >= 2:
                     tot = sum(flat[i] for i in idx)
@@ -263,10 +273,17 @@ def make_check(mode):
                     feats.add("mle:undetermined-parameter")
                     continue
                 s = prog[si]
-                if normalize and s[0] == "ad" and len(groups[si]) >= 2 and len(groups[si]) < len(s[1]):
-                    feats.add("mle:skipped(normalised AD with fixed head)")
-                    continue
                 want = cnt[0] / float(cnt[1])
+                if normalize and s[0] == "ad" and len(groups[si]) >= 2 and len(groups[si]) < len(s[1]):
+                    # tunable heads next to fixed heads, renormalised: the estimate is the relative frequency among
+                    # the tunable heads scaled to the mass the fixed heads leave
+                    avail = 1.0 - sum(float(p_) for p_, _ in s[1] if not g.is_tunable(p_))
+                    tot_true = sum(exp[(si, tun[j][1])][0] for j in groups[si])
+                    if tot_true == 0:
+                        feats.add("mle:undetermined-parameter")
+                        continue
+                    feats.add("mle:normalised AD with fixed heads")
+                    want = avail * cnt[0] / float(tot_true)
                 if abs(first[i] - want) > 1e-9:
                     return done(Failure("mle-mismatch", "%s: all %d examples are complete; after one step the weight "
                                         "of %s is %r, relative frequency in the data is %d/%d = %r\n%s\nexamples %s" % (
